@@ -78,3 +78,18 @@ pub open spec fn chain_of(e: IdedExpr, f: Seq<char>, first: Expr, rest: Seq<Expr
     exists|fs: String, ts: Seq<IdedExpr>, os: Seq<u64>| #[trigger] chain_ok(e, fs, ts, os) && fs@ == f && ts.len() == rest.len() + 1
         && ts[0].expr == first && (forall|j: int| 0 <= j < rest.len() ==> (#[trigger] ts[j + 1]).expr == rest[j])
 }
+// ---- select / index ----
+pub struct SelectContext { pub m: Option<Rc<MemberContextAll>>, pub id: Option<Box<CommonToken>>, pub op: Option<Box<CommonToken>>, pub opt: Option<Box<CommonToken>> }
+impl SelectContext {
+    #[verifier::external_body] pub fn member(&self) -> (r: Option<Rc<MemberContextAll>>) ensures r == self.m { unimplemented!() }
+    #[verifier::external_body] pub fn start(&self) -> Rc<CommonToken> { unimplemented!() }
+}
+pub struct IndexContext { pub m: Option<Rc<MemberContextAll>>, pub index: Option<Rc<ExprContextAll>>, pub op: Option<Box<CommonToken>>, pub opt: Option<Box<CommonToken>> }
+impl IndexContext {
+    #[verifier::external_body] pub fn member(&self) -> (r: Option<Rc<MemberContextAll>>) ensures r == self.m { unimplemented!() }
+    #[verifier::external_body] pub fn start(&self) -> Rc<CommonToken> { unimplemented!() }
+}
+impl CommonToken {
+    /// `get_text()` of an identifier token as an owned String (the generated token type returns Cow / String)
+    #[verifier::external_body] pub fn get_text_string(&self) -> (r: String) ensures r@ == tok_text(*self) { unimplemented!() }
+}
